@@ -48,10 +48,14 @@ class CreateSubscription(RPC):
 
         """
         node = new_ele_ns("create-subscription", NETCONF_NOTIFICATION_NS)
-        if filter is not None:
-            node.append(util.build_filter(filter))
         if stream_name is not None:
             sub_ele_ns(node, "stream", NETCONF_NOTIFICATION_NS).text = stream_name
+        if filter is not None:
+            # RFC 5277 section 2.1.1: <filter> follows <stream> and, like every child of
+            # <create-subscription>, belongs to the notification namespace
+            filter_node = util.build_filter(filter)
+            filter_node.tag = qualify("filter", NETCONF_NOTIFICATION_NS)
+            node.append(filter_node)
 
         if start_time is not None:
             sub_ele_ns(node, "startTime", NETCONF_NOTIFICATION_NS).text = start_time
